@@ -188,6 +188,17 @@ func c17Init() {
 	c17MountKinds["E"] = c17MountKind{coll: e}
 }
 
+// c17SplitNested: a mount entry "A>Bp@s d/new" is collection A with collection Bp mounted at
+// "s d/new" inside it; a plain kind has no inner mount.
+func c17SplitNested(m string) (outer, inner, at string) {
+	i := strings.Index(m, ">")
+	if i < 0 {
+		return m, "", ""
+	}
+	j := strings.Index(m, "@")
+	return m[:i], m[i+1 : j], m[j+1:]
+}
+
 func (mk c17MountKind) mount() arvados.Mount {
 	return arvados.Mount{Kind: "collection", PortableDataHash: mk.coll.pdh, Path: mk.path, ExcludeFromOutput: mk.exclude}
 }
@@ -312,7 +323,24 @@ func c17BuildNS(cs *c17Case) *c17ns {
 		case "secret":
 			n = &c17node{secret: true}
 		case "mount":
-			n = c17CollNode(e.Mount)
+			outer, inner, at := c17SplitNested(e.Mount)
+			n = c17CollNode(outer)
+			if inner != "" {
+				// a second collection mounted at a directory inside the first one: the container
+				// sees the inner collection there (and nothing of what the outer one has at that path)
+				d := n
+				comps := strings.Split(at, "/")
+				for _, comp := range comps[:len(comps)-1] {
+					ch, ok := d.children[comp]
+					if !ok || !ch.dir {
+						ch = c17Dir()
+						ch.coll = outer
+						d.children[comp] = ch
+					}
+					d = ch
+				}
+				d.children[comps[len(comps)-1]] = c17CollNode(inner)
+			}
 		case "chain":
 			n = &c17node{link: true, target: e.Name + ".1"}
 			for k := 1; k < e.Chain; k++ {
@@ -653,12 +681,17 @@ func (x *c17ctx) execute(cs *c17Case) (got c17Got) {
 		case "mount":
 			// bind mount point of a read-only collection: an empty directory (or an empty
 			// file for a single-file mount) on the host
-			if e.Mount == "Bf" {
+			outer, inner, at := c17SplitNested(e.Mount)
+			if outer == "Bf" {
 				c17must(ioutil.WriteFile(hp, nil, 0666))
 			} else {
 				c17must(os.Mkdir(hp, 0777))
 			}
-			mounts[c17Out+"/"+rel] = c17MountKinds[e.Mount].mount()
+			mounts[c17Out+"/"+rel] = c17MountKinds[outer].mount()
+			if inner != "" {
+				// the inner mount point lives inside the outer (FUSE) mount, not on the host
+				mounts[c17Out+"/"+rel+"/"+at] = c17MountKinds[inner].mount()
+			}
 		case "chain":
 			prev := hp
 			for k := 1; k < e.Chain; k++ {
@@ -1071,6 +1104,15 @@ func (g *c17Gen) specialsFor(i int) []c17Kind {
 	for _, m := range []string{"A", "Bp", "Bf", "Ax", "E"} {
 		sp = append(sp, c17Kind{code: c17kMount, s: m})
 	}
+	// a collection mounted inside a mounted collection: at a new name below an existing directory,
+	// at a new name at the top, (thorough) deeper and as excluded / single-file / empty inner mounts
+	nested := []string{"A>Bp@s d/new", "A>E@new", "Bp>A@q/n n"}
+	if g.thorough {
+		nested = append(nested, "A>Ax@s d/new", "A>Bf@s d/t/new", "A>Bp@new/er", "Ax>Bp@s d/new")
+	}
+	for _, m := range nested {
+		sp = append(sp, c17Kind{code: c17kMount, s: m})
+	}
 	for c := 0; c < g.n; c++ {
 		if g.parent[c] >= 0 && c != i {
 			sp = append(sp, c17Kind{code: c17kViaRel, c: c}, c17Kind{code: c17kViaAbs, c: c})
@@ -1238,6 +1280,13 @@ func c17Fixed() []*c17Case {
 			{Parent: 0, Name: `f\g`, Kind: "file", Size: c17Blk + 1},
 			{Parent: -1, Name: "d:e", Kind: "link", Target: "a"},
 			{Parent: -1, Name: "k", Kind: "link", Target: c17Out + "/a/m m/s d"},
+		}},
+		// a collection mounted inside a mounted collection, reached directly and through a link
+		{Entries: []c17Entry{
+			{Parent: -1, Name: "a", Kind: "dir"},
+			{Parent: 0, Name: "m", Kind: "mount", Mount: "A>Bp@s d/new"},
+			{Parent: -1, Name: "k", Kind: "link", Target: "a"},
+			{Parent: -1, Name: "l", Kind: "link", Target: c17Out + "/a/m/s d"},
 		}},
 		// every weird name at once, nested
 		{Outside: []string{"k1", "k2"}, Entries: []c17Entry{
